@@ -299,9 +299,13 @@ impl Model {
             .as_ref()
             .map(|ctrl| ctrl.stopped())
             .unwrap_or(false);
+        #[cfg(feature = "verif")]
+        crate::verif::point("hb.stopped", matcher_stopped as usize, self.matcher_control.is_some() as usize);
 
         if matcher_stopped {
             let reader_stopped = self.reader_control.as_ref().map(ReaderControl::is_done).unwrap_or(true);
+            #[cfg(feature = "verif")]
+            crate::verif::point("hb.done1", reader_stopped as usize, 0);
             let ctrl = self.matcher_control.take().unwrap();
             let lock = ctrl.into_items();
             let mut items = lock.lock();
@@ -321,12 +325,20 @@ impl Model {
                 }
             };
             self.num_options += matched.len();
+            #[cfg(feature = "verif")]
+            crate::verif::point(
+                "hb.harvest",
+                matched.len(),
+                matches!(env.clear_selection, ClearStrategy::DontClear) as usize,
+            );
             self.selection.append_sorted_items(matched);
         }
 
         let items_consumed = self.item_pool.num_not_taken() == 0;
         let reader_stopped = self.reader_control.as_ref().map(|c| c.is_done()).unwrap_or(true);
         let processed = reader_stopped && items_consumed;
+        #[cfg(feature = "verif")]
+        crate::verif::point("hb.done2", reader_stopped as usize, items_consumed as usize);
 
         // run matcher if matcher had been stopped and reader had new items.
         if !processed && self.matcher_control.is_none() {
@@ -342,7 +354,11 @@ impl Model {
                         let _ = tx.send((Key::Null, Event::EvHeartBeat));
                     });
             self.hb_timer_guard.replace(hb_timer_guard);
+            #[cfg(feature = "verif")]
+            crate::verif::point("hb.arm", 0, 0);
         }
+        #[cfg(feature = "verif")]
+        crate::verif::point("hb.end", self.matcher_control.is_some() as usize, processed as usize);
     }
 
     fn act_rotate_mode(&mut self, env: &mut ModelEnv) {
@@ -356,6 +372,8 @@ impl Model {
         env.clear_selection = ClearStrategy::Clear;
         self.item_pool.reset();
         self.num_options = 0;
+        #[cfg(feature = "verif")]
+        crate::verif::point("q.change", 0, 0);
         self.restart_matcher();
     }
 
@@ -370,7 +388,15 @@ impl Model {
 
         let processed = reader_stopped && items_consumed && matcher_stopped;
         let num_matched = self.selection.get_num_options();
+        #[cfg(feature = "verif")]
+        crate::verif::point(
+            "s1.read",
+            (reader_stopped as usize) * 4 + (items_consumed as usize) * 2 + matcher_stopped as usize,
+            num_matched,
+        );
         if processed {
+            #[cfg(feature = "verif")]
+            crate::verif::point("s1.decide", self.matcher_control.is_some() as usize, num_matched);
             if num_matched == 1 && self.select1 {
                 debug!("select-1 triggered, accept");
                 let _ = self.tx.send((Key::Null, Event::EvActAccept(None)));
@@ -399,6 +425,8 @@ impl Model {
         env.clear_selection = ClearStrategy::ClearIfNotNull;
         self.item_pool.clear();
         self.num_options = 0;
+        #[cfg(feature = "verif")]
+        crate::verif::point("cmd.change", 0, 0);
 
         // restart reader
         self.reader_control.replace(self.reader.run(&env.cmd));
@@ -414,6 +442,8 @@ impl Model {
         env.clear_selection = ClearStrategy::Clear;
         self.item_pool.reset();
         self.num_options = 0;
+        #[cfg(feature = "verif")]
+        crate::verif::point("q.change", 0, 0);
         self.restart_matcher();
     }
 
@@ -505,6 +535,8 @@ impl Model {
             let (key, ev) = next_event.take().or_else(|| self.rx.recv().ok())?;
 
             debug!("handle event: {:?}", ev);
+            #[cfg(feature = "verif")]
+            crate::verif::point("ev", (ev == Event::EvHeartBeat) as usize, 0);
 
             match ev {
                 Event::EvHeartBeat => {
@@ -708,10 +740,16 @@ impl Model {
 
         // if there are new items, move them to item pool
         let processed = self.reader_control.as_ref().map(|c| c.is_done()).unwrap_or(true);
+        #[cfg(feature = "verif")]
+        crate::verif::point("rm.done", processed as usize, 0);
         if !processed {
             // take out new items and put them into items
             let new_items = self.reader_control.as_ref().map(|c| c.take()).unwrap();
+            #[cfg(feature = "verif")]
+            let n_new = new_items.len();
             let _ = self.item_pool.append(new_items);
+            #[cfg(feature = "verif")]
+            crate::verif::point("rm.append", n_new, self.item_pool.len());
         };
 
         // send heart beat (so that heartbeat/refresh is triggered)
@@ -730,6 +768,8 @@ impl Model {
         });
 
         self.matcher_control.replace(new_matcher_control);
+        #[cfg(feature = "verif")]
+        crate::verif::point("rm.spawn", 0, 0);
     }
 
     /// construct the widget tree
